@@ -12,7 +12,7 @@ def first_lines(path, n=6):
         return ""
 def confirm_map():
     m = {}
-    for p in ("/tmp/seedout/confirm_head.log", "/tmp/seedout/confirm_head2.log", "/tmp/seedout/confirm_head3.log", "/tmp/seedout/confirm_head4.log", "/tmp/seedout/confirm_head5.log", "/tmp/seedout/confirm_head6.log", os.path.join(HERE, "seeded_confirmed_on_head.log")):
+    for p in ("/tmp/seedout/confirm_head.log", "/tmp/seedout/confirm_head2.log", "/tmp/seedout/confirm_head3.log", "/tmp/seedout/confirm_head4.log", "/tmp/seedout/confirm_head5.log", "/tmp/seedout/confirm_head6.log", "/tmp/seedout/confirm_head7.log", os.path.join(HERE, "seeded_confirmed_on_head.log")):
         if not os.path.exists(p):
             continue
         for l in open(p):
